@@ -9,6 +9,8 @@ open CkbVerif.Driver CkbVerif.Cycles
 group: cycles up to the failure), exit code, and whether it is the built-in TYPE_ID system script -/
 structure GSpec where
   cost : Nat
+  /-- exit code; 1000 stands for "the group ends in a VM error" (the harness prints a result that
+  carries exactly the one-shot run's VM error as `fail 1000 @g`) -/
   code : Int
   tid : Bool := false
 
@@ -127,7 +129,9 @@ def step (s : St) (ts : List String) : St × String :=
       | none => (s, "bad-op")
     | "note" :: _ => (s, "ok")
     | [op, b] =>
-      if op = "verify" ∨ op = "ctx-verify" then
+      -- `sig`: resumable_verify_with_signal with no signal ever sent = the one-shot run (Props/C05
+      -- signal_budget_ge_eq_unlimited / the empty pause schedule)
+      if op = "verify" ∨ op = "ctx-verify" ∨ op = "sig" then
         match parseNat? b with
         | some b => (s, showRes s.groups b (verify (mkGroups s.groups (some (0, 0))) b))
         | none => (s, "bad-op")
@@ -135,7 +139,9 @@ def step (s : St) (ts : List String) : St × String :=
         match parseNat? b with
         | some l => (s, showVR s.groups (resumableVerify (mkGroups s.groups (some (0, 0))) l))
         | none => (s, "bad-op")
-      else if op = "chunks" then
+      -- `pchunks`: the program's own pause points are additional split points; by chunked_eq_unchunked
+      -- the final result does not depend on where the run is split
+      else if op = "chunks" ∨ op = "pchunks" then
         match parseNatList? b with
         | some ls =>
           let gs := mkGroups s.groups none
